@@ -212,6 +212,16 @@ func newTableWatch() tableWatch { return tableWatch{cur: 4096, pending: -1} }
 // acked is called when an acknowledgement makes limit binding for the encoder.
 func (t *tableWatch) acked(limit int64) { t.pending = limit }
 
+// sent is called when the peer sends a new limit. An increase counts from the moment it is sent (the sender is ready for
+// it), so it takes the place of a smaller limit that was acknowledged since the last header block and has not been
+// applied yet: an encoder that has seen both before it writes its next block owes the decoder nothing but the final
+// size (seen once in 276 000 runs of the thorough tier: acknowledged 100, then 65536 sent, then the next block).
+func (t *tableWatch) sent(limit int64) {
+	if t.pending >= 0 && limit > t.pending {
+		t.pending = limit
+	}
+}
+
 // beforeBlock reports the size the decoder has to be shrunk to before the next header block is decoded.
 func (t *tableWatch) beforeBlock() (int64, bool) {
 	l := t.pending
